@@ -233,3 +233,11 @@ claim('C47', 'other',
       'reply type; exits of the handlers (ready / next message sent / defunct); compression and checksumming enabled only in post-STARTUP arms, in order, checksumming under the '
       'folded version predicate; value-identity dataflow between the algorithm announced in STARTUP and the stored codec pair; overlap/explicit-choice facts',
       'CFG dataflow with branch facts and custom state + sibling check over six reactors + who-may-write + finite-domain folding', _TB, 'DESIGN.md section 5 C47')
+
+claim('C07', 'other',
+      'static analysis across .pyx (Cython parser), .c (token tables) and .py: per-type width/signedness agreement of 23 Des<Name>/cqltypes pairs, typed-local narrowing rule, '
+      'null/empty decision table of the compiled from_binary vs the pure one (12 points, folded), collection prefix types by version, tuple null test, dispatch chain order and '
+      'class pairing of find_deserializer, row-parser metadata sources, the protocol handler swap, and a table comparison of cmurmur3.c with murmur3.py (constants, rotations, '
+      'tail case table folded over every tail length, byte signedness, finalisation). Value equality of float/datetime arithmetic is not decided',
+      'sibling cross-check over Cython parse trees, C token tables and Python ASTs + finite-domain folding',
+      _TB + '; Cython.Compiler parser from the repository environment; regular-expression token extraction from cmurmur3.c', 'DESIGN.md section 5 C07')
